@@ -38,7 +38,7 @@ def gen_invalid(sc, rng, for_write):
     tags = prj.user_tags()
     classes = ["unknown-tag", "unknown-member", "member-of-atomic", "index-out-of-range", "count-out-of-range", "forced-status", "numeric-member-of-structure"]
     if for_write:
-        classes += ["unencodable-value", "unencodable-value", "too-short-list", "misaligned-bool-array", "bit-out-of-range"]
+        classes += ["unencodable-value", "unencodable-value", "too-short-list", "misaligned-bool-array", "bit-out-of-range", "unsized-value-for-count"]
     for _ in range(50):
         c = rng.choice(classes)
         if c == "unknown-tag":
@@ -78,6 +78,11 @@ def gen_invalid(sc, rng, for_write):
             return Bad(t.full_name, c, rng.choice([5, "text", {"NoSuchMember": 1}, [1]]))
         if c == "unencodable-value" and t.dtype.kind == "string" and not t.dims:
             return Bad(t.full_name, c, rng.choice([5, 1.5, ["a"], "☃snowman"]))
+        if c == "unsized-value-for-count" and t.dims and t.dtype.name != "DWORD" and t.elements >= 2 and t.dtype.kind == "atomic":
+            # a {n} request needs n values: a scalar (or None) is a too-short value like any other - also when it is the only request
+            # of the call or the target is a Micro800 (requests are then built one by one)
+            n = rng.randint(2, min(t.elements, 12))
+            return Bad(f"{t.full_name}{{{n}}}", c, rng.choice([5, 0, None, 1.5, True]))
         if c == "too-short-list" and t.dims and t.dtype.name != "DWORD" and t.elements >= 3:
             n = rng.randint(3, min(t.elements, 20))
             v = [logixreq.gen_value_for(t.dtype, rng, overlong_strings=False) for _ in range(n - rng.randint(1, 2))]
